@@ -349,7 +349,7 @@ func normNum(x any) any {
 		return int64(t)
 	case uint:
 		if uint64(t) > math.MaxInt64 {
-			return float64(t)
+			return uint64(t)
 		}
 		return int64(t)
 	case uint8:
@@ -360,7 +360,7 @@ func normNum(x any) any {
 		return int64(t)
 	case uint64:
 		if t > math.MaxInt64 {
-			return float64(t)
+			return t
 		}
 		return int64(t)
 	case float32:
